@@ -49,7 +49,7 @@ def run_shard(shard, tier, seed, wd, res):
                 s.op(fam + ".eq", fe(a), fe(b))
                 if a == b or (a + b) % 3 == 0:
                     s.op(fam + ".ne", fe(a), fe(b))
-                s.op(fam + "." + ("lt", "gt", "le", "ge", "pcmp", "max")[(a + b) % 6], fe(a), fe(b))
+                s.op(fam + "." + ("lt", "gt", "le", "ge", "pcmp", "max", "min")[(a + b) % 7], fe(a), fe(b))
         # the same operations through the Field trait (generic code path), on a thinner grid
         B2 = B[::3]
         for a in B2:
